@@ -1,0 +1,60 @@
+//go:build verif
+
+package app
+
+import (
+	m "github.com/Eyevinn/dash-mpd/mpd"
+)
+
+// Thin exported wrappers around unexported functions of the generated time subtitles, used by the
+// verification harness for property C12 (/verif). No behaviour change; only built with -tags verif.
+
+// VerifCueItvl mirrors cueItvl.
+type VerifCueItvl struct {
+	StartMS, EndMS, UtcS int
+}
+
+// VerifCalcCueItvls calls calcCueItvls.
+func VerifCalcCueItvls(segStart, segDur, utcStart, cueDur int) []VerifCueItvl {
+	itvls := calcCueItvls(segStart, segDur, utcStart, cueDur)
+	out := make([]VerifCueItvl, 0, len(itvls))
+	for _, ci := range itvls {
+		out = append(out, VerifCueItvl{StartMS: ci.startMS, EndMS: ci.endMS, UtcS: ci.utcS})
+	}
+	return out
+}
+
+// VerifMsToTTMLTime calls msToTTMLTime.
+func VerifMsToTTMLTime(ms int) string { return msToTTMLTime(ms) }
+
+// VerifRep2SubsTime calls rep2SubsTime.
+func VerifRep2SubsTime(repTime uint64, timescale int) uint64 { return rep2SubsTime(repTime, timescale) }
+
+// VerifS is one S element of a SegmentTimeline (HasT false: no t attribute).
+type VerifS struct {
+	HasT bool
+	T, D uint64
+	R    int
+}
+
+// VerifChangeTimelineTimescale calls changeTimelineTimescale.
+func VerifChangeTimelineTimescale(in []VerifS, oldTimescale, newTimescale int) []VerifS {
+	stl := m.SegmentTimelineType{}
+	for _, s := range in {
+		e := m.S{D: s.D, R: s.R}
+		if s.HasT {
+			e.T = m.Ptr(s.T)
+		}
+		stl.S = append(stl.S, &e)
+	}
+	o := changeTimelineTimescale(&stl, oldTimescale, newTimescale)
+	out := make([]VerifS, 0, len(o.S))
+	for _, s := range o.S {
+		e := VerifS{D: s.D, R: s.R}
+		if s.T != nil {
+			e.HasT, e.T = true, *s.T
+		}
+		out = append(out, e)
+	}
+	return out
+}
